@@ -73,7 +73,7 @@ func SeriesOf(sc *scn.Scenario, data []scn.DSeries) []vstore.Series {
 	for _, d := range data {
 		s := vstore.Series{L: d.Labels()}
 		for _, p := range d.Smp {
-			s.T = append(s.T, sc.Ms(p.T))
+			s.T = append(s.T, sc.Abs(p.T))
 			s.V = append(s.V, p.Val())
 		}
 		ss = append(ss, s)
@@ -87,6 +87,10 @@ func EngineOpts(sc *scn.Scenario, optimizers string, disableFallback bool, reg p
 		EngineOpts:        withReg(PromOpts(sc.Dur(sc.LB)), reg),
 		LogicalOptimizers: Optimizers(optimizers),
 		DisableFallback:   disableFallback,
+	}
+	// a sample budget (EngineOpts.MaxSamples) when the scenario asks for one
+	if v := sc.CfgInt("maxsamples", 0); v > 0 {
+		o.EngineOpts.MaxSamples = v
 	}
 	// one scenario in four (by id): the engine explains every plan it builds to a debug writer
 	if idBits(sc, 11)%4 == 0 {
